@@ -2360,8 +2360,22 @@ class LazyStackedTensorDict(TensorDictBase):
                 # we can return a stack
                 for (i, _idx), mask in _zip_strict(converted_idx.items(), mask_unbind):
                     if mask.any():
-                        if mask.all() and self.tensordicts[i].ndim == 0:
-                            result.append(self.tensordicts[i])
+                        if (
+                            mask.all()
+                            and self.tensordicts[i].ndim == 0
+                            and all(
+                                item is None
+                                for loc, item in enumerate(_idx)
+                                if loc != split_index["mask_loc"]
+                            )
+                        ):
+                            # a 0-dim member cannot be indexed with a 0-dim mask
+                            # together with other items: the only other valid
+                            # items are None, each of which adds a singleton dim
+                            td_i = self.tensordicts[i]
+                            for _ in range(len(_idx) - 1):
+                                td_i = td_i.unsqueeze(0)
+                            result.append(td_i)
                         else:
                             result.append(self.tensordicts[i][_idx])
                             result[-1] = result[-1].squeeze(cat_dim)
